@@ -5,6 +5,7 @@ mod canon;
 mod heapgraph;
 mod natives;
 mod run;
+mod threads;
 
 use std::io::BufRead;
 use std::io::Write;
@@ -93,6 +94,7 @@ fn main() {
         let events = guarded(stack_mb, move || match mode2.as_str() {
             "run" => run::run_case(&case),
             "heapgraph" => heapgraph::run_case(&case),
+            "threads" => threads::run_case(&case),
             _ => vec![json!(["bad_mode", mode2])],
         });
         writeln!(out, "{}", json!({"id": id, "ev": events})).unwrap();
